@@ -24,6 +24,10 @@ def merges_into(func, target: str):
         elif isinstance(n, ast.Assign) and u(n.targets[0]) == target and isinstance(n.value, ast.Dict) and n.value.keys and all(k is None for k in n.value.keys):
             for v in n.value.values:
                 out.append((u(v), n))
+        elif isinstance(n, ast.Return) and isinstance(n.value, ast.Dict) and n.value.keys and all(k is None for k in n.value.keys) and u(n.value) == target:
+            # `return {**a, **b}` (the returned expression itself is the merge; a `tmp = {...}; return tmp` pair is folded to this form at parse time)
+            for v in n.value.values:
+                out.append((u(v), n))
         elif isinstance(n, ast.Assign) and isinstance(n.targets[0], ast.Subscript) and u(n.targets[0].value) == target:
             out.append((f"[{u(n.targets[0].slice)}]", n))
     out.sort(key=lambda x: (x[1].lineno, x[1].col_offset))
